@@ -65,7 +65,8 @@ type CertLoader struct {
 	cert                    *tls.Certificate
 	certMu                  sync.RWMutex
 
-	done chan struct{}
+	done       chan struct{}
+	terminated chan struct{}
 }
 
 // Initialize initializes a CertLoader.
@@ -101,6 +102,7 @@ func (cl *CertLoader) Initialize() error {
 		return err
 	}
 
+	cl.terminated = make(chan struct{})
 	go cl.watch()
 
 	return nil
@@ -148,6 +150,14 @@ func (cl *CertLoader) initializeAuto() (bool, error) {
 // Close closes a CertLoader and releases any underlying resources.
 func (cl *CertLoader) Close() {
 	close(cl.done)
+
+	// wait for watch() to return before closing watchers.
+	// otherwise, it could interpret their closure as a file change,
+	// reload the certificate and write to a logger that doesn't exist anymore.
+	if cl.terminated != nil {
+		<-cl.terminated
+	}
+
 	if cl.certWatcher != nil {
 		cl.certWatcher.Close() //nolint:errcheck
 	}
@@ -167,6 +177,8 @@ func (cl *CertLoader) GetCertificate(_ *tls.ClientHelloInfo) (*tls.Certificate, 
 }
 
 func (cl *CertLoader) watch() {
+	defer close(cl.terminated)
+
 	for {
 		select {
 		case <-cl.certWatcher.Watch():
